@@ -1,7 +1,8 @@
+import Gv.Oracle.Cli
 import Gv.Oracle.Det
 import Gv.Oracle.Seq
 import Gv.Oracle.Loop
 /-! oracle of property C05: only the handlers it needs -/
 open Gv Gv.Oracle
 
-def main : IO Unit := runOracle [SeqOps.handle, DetOps.handle]
+def main : IO Unit := runOracle [SeqOps.handle, DetOps.handle, CliOps.handle]
